@@ -1,6 +1,7 @@
 pub mod c01;
 pub mod c02;
 pub mod c03;
+pub mod c04;
 pub mod c06;
 pub mod c10;
 pub mod c12;
@@ -15,6 +16,7 @@ pub fn dispatch(prop: &str, rc: &mut RunCtx) -> bool {
         "C01" => c01::run(rc),
         "C02" => c02::run(rc),
         "C03" => c03::run(rc),
+        "C04" => c04::run(rc),
         "C06" => c06::run(rc),
         "C10" => c10::run(rc),
         "C12" => c12::run(rc),
